@@ -2,13 +2,13 @@
 # tools/seed_eval.sh <property id> <worktree> <name> [extra check ids]: confirm a seeded change in its scratch worktree, store it under
 # /verif/seeded/<name>/, run the check(s) against it in /repo and undo it.
 set -u
-PID=$1; WT=$2; NAME=$3; shift 3; CHECKS="$PID $*"
+PID=$1; WT=$2; NAME=$3; shift 3; CHECKS="$PID $*"; TAG=${TAG:-$PID}
 OUT=/verif/seeded/$NAME; mkdir -p $OUT
 cd $WT || exit 2
-/venv/bin/python demo_$PID.py > $OUT/demo_with_change.log 2>&1; W=$?
-cp patch_$PID.diff $OUT/patch.diff; cp demo_$PID.py $OUT/demo.py
-git diff -- hvsrpy > /tmp/current_$PID.diff; cmp -s /tmp/current_$PID.diff $OUT/patch.diff || echo "NOTE: worktree diff differs from the saved patch"
-git apply -R $OUT/patch.diff; /venv/bin/python demo_$PID.py > $OUT/demo_without_change.log 2>&1; WO=$?; git apply $OUT/patch.diff
+/venv/bin/python demo_$TAG.py > $OUT/demo_with_change.log 2>&1; W=$?
+cp patch_$TAG.diff $OUT/patch.diff; cp demo_$TAG.py $OUT/demo.py
+git diff -- hvsrpy > /tmp/current_$TAG.diff; cmp -s /tmp/current_$TAG.diff $OUT/patch.diff || echo "NOTE: worktree diff differs from the saved patch"
+git apply -R $OUT/patch.diff; /venv/bin/python demo_$TAG.py > $OUT/demo_without_change.log 2>&1; WO=$?; git apply $OUT/patch.diff
 echo "demo with change: exit $W ; without: exit $WO"
 cd /repo && git apply $OUT/patch.diff || { echo "patch does not apply"; exit 2; }
 RES=""
